@@ -1009,6 +1009,65 @@ fn run_case(u: &mut Src, st: &mut Stats, av: Avoid) -> Result<(), Fail> {
 const MATRIX_DOC: &str = "a: 1\nb: [x, \"y\"]\nc: {p: 1}\n";
 
 /// (context name, role, program for the string literal `s`)
+/// A templated family outside G-yaml: block scalars whose first content line starts with
+/// spaces (so the source carries an explicit indentation indicator), nested 1..4 levels deep
+/// under mappings / sequences, printed back by identity and navigation programs. Explicit
+/// indicators are otherwise excluded from G-yaml (documented loader gaps around `M5C3`,
+/// spaces-only lines and content-less blocks); this family stays inside what loads
+/// correctly: literal or folded, clip/strip chomping, every line has content, later lines
+/// less indented than the first.
+fn indicator_case(u: &mut Src, st: &mut Stats) -> Result<(), Fail> {
+    let depth = u.range(1, 4);
+    let step = u.range(2, 4);
+    let in_seq = u.bool();
+    let header = *u.pick(&["|", "|-", ">", ">-"]);
+    let extra = u.range(1, 3); // leading spaces of the first content line
+    let mut y = String::new();
+    for d in 0..depth - 1 {
+        y.push_str(&" ".repeat(d * step));
+        y.push_str(&format!("k{}:\n", d));
+    }
+    let base = (depth - 1) * step;
+    let pad = " ".repeat(base);
+    // content indentation = parent indentation + n, with explicit indicator n (1..=step)
+    let n = u.range(1, step.min(3));
+    let content = if in_seq {
+        y.push_str(&format!("{}s:\n{}- {}{}\n", pad, pad, header.chars().next().unwrap(), n));
+        if header.len() > 1 {
+            // chomping indicator after the digit
+            let l = y.len();
+            y.insert(l - 1, '-');
+        }
+        base + n
+    } else {
+        y.push_str(&format!("{}s: {}{}{}\n", pad, &header[..1], n, &header[1..]));
+        base + n
+    };
+    let cpad = " ".repeat(content);
+    y.push_str(&format!("{}{}first line\n", cpad, " ".repeat(extra)));
+    for i in 0..u.range(0, 2) {
+        y.push_str(&format!("{}line {}\n", cpad, i));
+    }
+    y.push_str(&format!("{}after: 1\n", pad));
+    let program = if depth > 1 && u.bool() { ".k0".to_string() } else { ".".to_string() };
+    let indent = u.range(2, 7) as u8;
+    st.class(&format!("depth-{}", depth));
+    st.class(if in_seq { "in-sequence" } else { "in-mapping" });
+    st.class(&format!("indent-{}", indent));
+    st.nontrivial(hash_str(&format!("{}|{}|{}", y, program, indent)));
+    st.sample(&format!("depth-{}", depth), || json!({"yaml": y, "program": program, "indent": indent}));
+    let case = Case { yaml: y.into_bytes(), program, indent };
+    st.describe(|| describe(&case));
+    match check_once(&case, indent, st) {
+        Ok(Outcome::Discarded) => {
+            st.discard();
+            Ok(())
+        }
+        Ok(_) => Ok(()),
+        Err(f) => Err(Fail::new(format!("C15/explicit-indentation-indicator/{}", f.sig.trim_start_matches("C15/")), f.detail)),
+    }
+}
+
 fn matrix_prog(ctx: usize, s: &str) -> (&'static str, String) {
     let q = crate::oracle::jqeval::jq_string(s);
     match ctx {
@@ -1169,6 +1228,12 @@ pub fn run(cx: &mut Ctx) {
         cx.note(format!("open findings: `reread` does not generate {}; `open-finding-shapes` does", avoided.join("; ")));
     }
     cx.check("reread", RULE, Budget { quick: 3_000, thorough: 150_000, max_len: 3000 }, |u, st| run_case(u, st, av));
+    cx.check(
+        "explicit-indentation-indicator",
+        "templated documents: a literal/folded block scalar whose first content line starts with spaces (explicit indentation indicator in the source), nested 1..4 levels under mappings/sequences, printed by identity/navigation at -I 2..7; same re-read oracle",
+        Budget { quick: 500, thorough: 20_000, max_len: 64 },
+        indicator_case,
+    );
     for cl in [
         "nontrivial", "write-program", "read-program", "assign", "update", "add-assign", "delete", "merge-literal", "merge-assign", "alt-assign", "pipe",
         "identity", "navigate", "path:anchor", "path:alias", "path:through-alias", "path:block-scalar-parent", "path:new-key", "path:append",
